@@ -307,11 +307,11 @@ def rule_dup(F, R):
                         propagated = True
         R.check(propagated, rule, fn, "duplicate-name error of add_field_full is propagated with `?`",
                 "a dropped Result silently keeps the first definition", c["sp"])
-        ret_ = tail(h["body"])
+        ret_ = fn_result(h)
         returned = local_name(ret_["args"][0]) if ret_.get("k") == "Call" and ret_.get("args") else None
         R.check((returned is not None and local_name(c["recv"]) == returned) if c["k"] == "MethodCall" else True, rule, fn,
                 "fields are added to the builder that is returned", where=c["sp"])
-    t = tail(h["body"])
+    t = fn_result(h)
     ok = t.get("k") == "Call" and norm(t.get("callee", "")) == "core::result::Result::Ok" and local_name(t["args"][0]) is not None and \
         "SchemeBuilder" in norm(t["args"][0].get("ty", ""))
     R.check(ok, rule, fn, "the visitor returns that builder", where=h["span"])
